@@ -38,7 +38,7 @@ use crate::{
 };
 use serde::{Deserialize, Serialize};
 use std::hash::Hash;
-use std::sync::{
+use crate::vsync::{
     atomic::{AtomicU64, Ordering},
     Arc, Mutex,
 };
